@@ -19,33 +19,6 @@ def norm_idx(t):
     return t.replace("[-1]", "[1]").replace("[-2]", "[0]")
 
 
-def role_mapping(m):
-    """locals of a Sliced product method by ROLE: the two names unpacked from self.slices -> start_slices /
-    end_slices, the zeros buffer -> Y, the product with self.A -> output (the textual shape of the method is then
-    compared independently of how the locals are spelled)"""
-    mapping = {}
-    for st in df.body_nodes(m.node):
-        if not isinstance(st, ast.Assign) or len(st.targets) != 1:
-            continue
-        t, v = st.targets[0], st.value
-        if isinstance(t, ast.Tuple) and len(t.elts) == 2 and all(isinstance(e, ast.Name) for e in t.elts) and nospace(v) == "self.slices":
-            mapping.setdefault(t.elts[0].id, "start_slices")
-            mapping.setdefault(t.elts[1].id, "end_slices")
-        elif isinstance(t, ast.Name) and isinstance(v, ast.Call) and isinstance(v.func, ast.Attribute) and v.func.attr == "zeros":
-            mapping.setdefault(t.id, "Y")
-        elif isinstance(t, ast.Name) and isinstance(v, ast.BinOp) and isinstance(v.op, ast.MatMult) and "self.A" in (nospace(v.left), nospace(v.right)):
-            mapping.setdefault(t.id, "output")
-    return mapping if len(set(mapping.values())) == len(mapping) else {}
-
-
-def ctext(node, mapping):
-    t = ast.parse(ast.unparse(node))
-    for n in ast.walk(t):
-        if isinstance(n, ast.Name) and n.id in mapping:
-            n.id = mapping[n.id]
-    return nospace(t)
-
-
 def parents(node, stop):
     p = getattr(node, "_parent", None)
     while p is not None and p is not stop:
@@ -176,11 +149,34 @@ def run(idx, rep, tier):
     if not all((init, mm, rm)):
         rep.missing_anchor("Sliced.__init__/_matmat/_rmatmat")
     else:
+        from sa.scatter import Scatter, show as sshow
         a, s = init.params[1], init.params[2]
-        src = norm_idx(nospace(init.node))
-        ok = f"arange({a}.shape[0])[slices[0]].shape+np.arange({a}.shape[1])[slices[1]].shape" in src.replace(f"[{s}[0]]", "[slices[0]]").replace(f"[{s}[1]]", "[slices[1]]")
-        rep.decide(ok, "slice-shape", "Sliced.__init__", "rows come from A.shape[0] indexed by slices[0], columns from A.shape[1] indexed by slices[1]" if ok else
-                   "shape is not arange(rows)[slices[0]] + arange(cols)[slices[1]]", detail="" if ok else "roles", locs=[idx.loc(init.module, init.node)])
+        # (i) the shape is (#rows selected, #columns selected): arange(rows of A)[slices[0]].shape + arange(columns of A)[slices[1]].shape,
+        # judged on the value handed to the base constructor, however it is assembled
+        sd = Scatter(idx, tuple_paths={s, "self.slices"})
+        sup = [c for c in df.calls(init.node) if isinstance(c.func, ast.Attribute) and c.func.attr == "__init__" and isinstance(c.func.value, ast.Call) and nospace(c.func.value.func) == "super"]
+        shape_e = next((k.value for c in sup for k in c.keywords if k.arg == "shape"), sup[0].args[1] if sup and len(sup[0].args) > 1 else None)
+        if shape_e is None:
+            rep.undecided("slice-shape", "Sliced.__init__", "no shape handed to the base constructor")
+        else:
+            sv = sd.eval_in(init, shape_e)
+
+            def parts(v):
+                if isinstance(v, tuple) and v and v[0] == "cat":
+                    return parts(v[1]) + parts(v[2])
+                if isinstance(v, tuple) and v and v[0] == "tuple":
+                    return [x for e in v[1] for x in parts(e)]
+                return [v]
+            ps = parts(sv)
+            recognised = len(ps) == 2 and all(isinstance(x, tuple) and x[0] == "lenof" and x[1][0] == "indices" for x in ps)
+            if not recognised:
+                rep.undecided("slice-shape", "Sliced.__init__", f"shape is {sshow(sv)}: not two selected-index counts")
+            else:
+                ok = all(x[1][1] == ("dim", a, k) and x[1][2] == ("item", s, k) for k, x in enumerate(ps))
+                if not ok and "opaque" in repr(ps):
+                    ok = None  # an index object of unknown origin: not a role mix-up that can be named
+                rep.decide(ok, "slice-shape", "Sliced.__init__", "rows come from A.shape[0] indexed by slices[0], columns from A.shape[1] indexed by slices[1]" if ok else
+                           f"shape is {sshow(sv)}; required arange(rows)[slices[0]].shape + arange(cols)[slices[1]].shape", detail="" if ok else "roles", locs=[idx.loc(init.module, init.node)])
         stored = [nospace(n.value) for n in df.body_nodes(init.node) if isinstance(n, ast.Assign) and nospace(n.targets[0]) == "self.slices"]
         first_rebind = min([n.lineno for n in df.body_nodes(init.node) if isinstance(n, ast.Assign) and nospace(n.targets[0]) == s] or [10**9])
         store_line = min([n.lineno for n in df.body_nodes(init.node) if isinstance(n, ast.Assign) and nospace(n.targets[0]) == "self.slices"] or [0])
@@ -188,69 +184,82 @@ def run(idx, rep, tier):
         rep.decide(True if ok else None, "slice-shape", "Sliced.__init__:stored", "the caller's index objects are stored as given (before any re-binding)" if ok else
                    f"self.slices is `{stored}` / stored after `{s}` was re-bound: the product methods index with something else than the caller's slices", detail="" if ok else "rebound",
                    locs=[idx.loc(init.module, init.node)])
-        for m, buf_shape, scatter, parent_prod, gather in (
-                (mm, "(self.A.shape[1],{x}.shape[1])", "end_slices", "self.A@Y", "output[start_slices]"),
-                (rm, "({x}.shape[0],self.A.shape[0])", "...,start_slices", "Y@self.A", "output[...,end_slices]")):
+        # (ii) products: the operand is scattered into a zero buffer of the parent's size at the index of the contracted axis, multiplied
+        # by the parent, and the result gathered at the index of the other axis -- judged on the returned value (SCATTER domain)
+        ROW, COL = ("item", "self.slices", 0), ("item", "self.slices", 1)
+        PARENT = ("obj", "self.A")
+        for m, left in ((mm, False), (rm, True)):
             x = m.params[1]
-            roles = role_mapping(m)
-            src = norm_idx(ctext(m.node, roles))
-            unpack = "start_slices,end_slices=self.slices" in src
-            z = next((c for c in df.calls(m.node) if df.is_xnp_call(c) == "zeros"), None)
-            shp_node = next((k.value for k in z.keywords if k.arg == "shape"), None) if z is not None else None
-            if shp_node is None and z is not None and z.args:
-                shp_node = z.args[0]
-            shp = norm_idx(nospace(shp_node)) if shp_node is not None else "?"
-            upd = next((c for c in df.calls(m.node) if df.is_xnp_call(c) == "update_array"), None)
-            upd_idx = ",".join(ctext(a_, roles) for a_ in upd.args[2:]) if upd is not None else "?"
-            # exits: gather(<product of the parent with the scattered buffer>), the product bound to a name first or written inline
-            gather_idx = gather[len("output"):]  # "[start_slices]" / "[...,end_slices]"
+            X = ("obj", x)
+            if not left:
+                want_buf = ("tuple", (("dim", "self.A", 1), ("dim", x, 1)))
+                want_sc, want_ga = (COL, ), (ROW, )
+                req = f"buffer (self.A.shape[1],{x}.shape[1]), scatter [cols], exit (self.A @ buffer)[rows]"
+            else:
+                want_buf = ("tuple", (("dim", x, 0), ("dim", "self.A", 0)))
+                want_sc, want_ga = (("ellipsis", ), ROW), (("ellipsis", ), COL)
+                req = f"buffer ({x}.shape[0],self.A.shape[0]), scatter [...,rows], exit (buffer @ self.A)[...,cols]"
+            sd = Scatter(idx, tuple_paths={"self.slices"})
+            sd.self_cls = sl
+            exits = []
+            for r in df.returns(m.node):
+                if r.value is None:
+                    continue
+                for v in sd.alternatives(sd.eval_in(m, r.value)):
+                    exits.append((r, v))
 
-            def exit_shape(r):
-                """(product text, gather text) of `return <P>[<idx>]` in role names, P resolved through a single-binding local"""
-                v = r.value
-                if not isinstance(v, ast.Subscript):
-                    return None, None
-                prod_e = df.resolve_value(m.node, v.value)
+            def classify(v):
+                """'good' / 'raw' (parent times the un-scattered operand) / 'bad' (scatter-gather with wrong roles or sizes) / None"""
+                g_idx = None
+                if isinstance(v, tuple) and v and v[0] == "gather":
+                    v, g_idx = v[1], v[2]
+                if not (isinstance(v, tuple) and v and v[0] == "matmul"):
+                    return None
+                par, other = (v[2], v[1]) if left else (v[1], v[2])
+                if par != PARENT:
+                    return None
+                if other == X:
+                    return "raw"
+                if not (isinstance(other, tuple) and other[0] == "scatter"):
+                    return None
+                buf, val, sc_idx = other[1], other[2], other[3]
+                if isinstance(buf, tuple) and buf[0] == "zeros" and buf[1] == want_buf and val == X and sc_idx == want_sc and g_idx == want_ga:
+                    return "good"
+                return "bad" if isinstance(buf, tuple) and buf[0] == "zeros" else None
 
-                def side(e):
-                    # the scattered buffer, whether it is bound to a local or written inline as update_array(zeros(..), X, idx)
-                    d = df.resolve_value(m.node, e)
-                    if upd is not None and (d is upd or (isinstance(d, ast.Name) and roles.get(d.id) == "Y")):
-                        return "Y"
-                    return ctext(e, roles)
-                if isinstance(prod_e, ast.BinOp) and isinstance(prod_e.op, ast.MatMult):
-                    return f"{side(prod_e.left)}@{side(prod_e.right)}", "[" + ctext(v.slice, roles) + "]"
-                return ctext(prod_e, roles), "[" + ctext(v.slice, roles) + "]"
-
-            exits = [(r, *exit_shape(r)) for r in df.returns(m.node) if r.value is not None]
-            good = [e for e in exits if e[1] == parent_prod and e[2].replace("(", "").replace(")", "") == gather_idx]
-            ok = unpack and shp == norm_idx(buf_shape.format(x=x)) and upd_idx == scatter and bool(good)
-            rep.decide(ok, "slice-buffers", f"Sliced.{m.name}", f"buffer {shp}, scatter by [{upd_idx}], exits {[(e[1], e[2]) for e in exits]}" +
-                       ("" if ok else f"; required buffer {buf_shape.format(x=x)}, scatter [{scatter}], an exit {parent_prod}{gather_idx}"), detail="" if ok else "buffers", locs=[idx.loc(m.module, m.node)])
+            kinds_ = [(r, v, classify(v)) for r, v in exits]
+            good = [e for e in kinds_ if e[2] == "good"]
+            bad = [e for e in kinds_ if e[2] == "bad"]
+            shown = "; ".join(sshow(v) for _r, v, _k in kinds_)[:300]
+            verdict = True if good and not bad else (False if bad else None)
+            rep.decide(verdict, "slice-buffers", f"Sliced.{m.name}", f"returns {shown}" + ("" if verdict else f"; required {req}"), detail="" if verdict else "buffers", locs=[idx.loc(m.module, m.node)])
             # every exit must go through the scatter / gather pair: a return that multiplies the parent by the raw operand
             # ignores the column (row) selection; equal sizes do not make the selection the identity (A[:, ::-1], A[:, [1, 0]])
-            for r, prod_t, gat_t in exits:
-                if (r, prod_t, gat_t) in good:
+            for r, v, kind_ in kinds_:
+                if kind_ in ("good", "bad"):
                     continue
-                guards = [p_ for p_ in parents(getattr(r, "_origin", r), m.node) if isinstance(p_, ast.If)]
-                gtxt = " and ".join(nospace(g.test) for g in guards)
-                only_sizes = bool(guards) and all(isinstance(g.test, ast.Compare) and all(".shape" in nospace(x) or "len(" in nospace(x) for x in [g.test.left] + g.test.comparators) for g in guards)
-                uses_raw = prod_t in (f"self.A@{x}", f"{x}@self.A")
-                if uses_raw and (only_sizes or not guards):
+                guards = [t_ for t_, _pol in df.branch_conditions(r, m.node)]
+                gtxt = " and ".join(nospace(g) for g in guards)
+                only_sizes = bool(guards) and all(isinstance(g, ast.Compare) and all(".shape" in nospace(x_) or "len(" in nospace(x_) for x_ in [g.left] + g.comparators) for g in guards)
+                if kind_ == "raw" and (only_sizes or not guards):
                     rep.refuted("slice-buffers", f"Sliced.{m.name}:shortcut", f"`return {nospace(r.value)}`" + (f" under `{gtxt}`" if gtxt else "") + " multiplies the parent by the un-scattered operand: "
                                 "the other index of the slice is ignored, and equal sizes do not make it the identity selection (reversed or permuted indices)", detail="bypass", locs=[idx.loc(m.module, r)])
                 else:
                     rep.undecided("slice-buffers", f"Sliced.{m.name}:shortcut", f"`return {nospace(r.value)}`" + (f" under `{gtxt}`" if gtxt else "") + " does not go through the scatter/gather pair", locs=[idx.loc(m.module, r)])
-            # dtype of the scatter buffer must cover the operand
-            if z is not None and upd is not None:
-                dt = DType(idx, x)
-                d = next((k.value for k in z.keywords if k.arg == "dtype"), None)
-                bs = dt.flat(dt.eval_in(m, d)) if d is not None else frozenset()
-                vs = dt.flat(dt.eval_in(m, upd.args[1]))
-                missing = sorted((vs & {"op", "arg"}) - bs)
+            # dtype of the scatter buffer must cover the operand (DTYPE domain: every update_array reached from the returned values)
+            dt = DType(idx, x)
+            dt.self_cls = sl
+            for r in df.returns(m.node):
+                if r.value is not None:
+                    dt.eval_in(m, r.value)
+            seen_sc = {}
+            for node_, f_, bs, vs, lost in dt.scatters:
+                seen_sc[id(node_)] = (node_, f_, bs, vs, lost)
+            for node_, f_, bs, vs, lost in seen_sc.values():
+                missing = sorted(lost)
                 rep.decide(not missing, "slice-buffers", f"Sliced.{m.name}:dtype", f"scatter buffer is typed by {sorted(bs)}, the scattered operand by {sorted(vs)}" +
                            ("" if not missing else ": a complex operand multiplied into a slice of a real operator silently loses its imaginary part"),
-                           detail="" if not missing else "narrow", locs=[idx.loc(m.module, z)])
+                           detail="" if not missing else "narrow", locs=[idx.loc((f_ or m).module, node_)])
     # ---- 3a. every __getitem__ (base class and overrides): two integer indices bound by a pattern are never compared raw --
     # i and j name the same position also when one is negative (D[-1, n-1]), so `i == j` is not "on the diagonal"
     n_getitem = 0
